@@ -539,7 +539,41 @@ def w_put_aggregates(ctx, s):
     return r
 
 
+def w_put_allocations_attrs(ctx, s):
+    """one write (1.38) naming a different project, user and/or consumer
+    type: what is read back afterwards is what the accepted request named"""
+    combos = [('proj2', 'user', 'MIGRATION'), ('proj', 'user2', 'MIGRATION'),
+              ('proj2', 'user2', 'INSTANCE'), ('proj', 'user', 'MIGRATION'),
+              ('proj2', 'user2', 'MIGRATION')]
+    proj, user, ctype = combos[symex.choose(len(combos))]
+    gen_null = symex.fork(ctx.bool('req_cgen_null'))
+    body = {'allocations': {U(1): {'resources': {'VCPU': ctx.int('amt1')}}},
+            'project_id': proj, 'user_id': user, 'consumer_type': ctype,
+            'consumer_generation': None if gen_null else ctx.int('req_cgen')}
+    r = app.call('PUT', '/allocations/' + CONS(1), body, version='1.38')
+    if r.status != 204:
+        return r
+    back = app.call('GET', '/allocations/' + CONS(1), version='1.38')
+    js = back.json
+    for k, want in (('project_id', proj), ('user_id', user),
+                    ('consumer_type', ctype)):
+        if js.get(k) != want:
+            runner.violation(ctx, 'write-effect',
+                             'after an accepted write naming %s=%r the '
+                             'consumer reads back %r' % (k, want, js.get(k)),
+                             sig=k)
+    us = app.call('GET', '/usages?project_id=%s&user_id=%s' % (proj, user),
+                  version='1.38').json['usages']
+    if ctype not in us or 'VCPU' not in us.get(ctype, {}):
+        runner.violation(ctx, 'write-effect',
+                         'usage of the written consumer is not reported '
+                         'under project %s / user %s / type %s: %s' % (
+                             proj, user, ctype, sorted(us)), sig='usages')
+    return r
+
+
 WRITES = dict(put_allocations=w_put_allocations,
+              put_allocations_attrs=w_put_allocations_attrs,
               put_inventories=w_put_inventories,
               delete_allocations=w_delete_allocations,
               put_traits=w_put_traits, put_aggregates=w_put_aggregates)
